@@ -131,7 +131,9 @@ def judge (f : List String) (ans : String) : String :=
           else
             -- last-member sensitivity: only the last leaf differs and its std::hash differs => hashes differ
             let lastOnly := rxs.length ≥ 1 && rxs.dropLast == rys.dropLast && hxs.getLast? != hys.getLast?
-            if lastOnly && comparable sh && hx == hy then "bad:last-member-change-did-not-change-hash" ++ feat
+            -- (for every shape: the combiner is injective in its last argument — `combine_inj`,
+            --  `tuple_last_injective`, `pair_second_injective` — and variants and pointers pass their content on)
+            if lastOnly && hx == hy then "bad:last-member-change-did-not-change-hash" ++ feat
             else if comparable sh then
               let want := bit (c != .eq) ++ bit (c == .eq) ++ bit (c == .lt) ++ bit (c == .gt) ++
                 bit (c != .gt) ++ bit (c != .lt)
